@@ -335,3 +335,19 @@ package gabi
 //@   loop 2 invariant 0 <= $i && $i <= len(responseRequest.UserChallengeInput) && fresh(challengeContribs) && len(challengeContribs) >= 2 * $i && forall j in 0..len(challengeContribs) :: challengeContribs[j] != nil
 //@   loop 2 modifies elems(challengeContribs), onlyfresh("BV")
 //@   mustfail canary: err != nil
+
+//@ # user side of the second keyshare message: everything the server needs to recompute the challenge is sent along
+//@ func (ProofBuilderList).ChallengeWithRandomizers
+//@   property C14
+//@   trusted calls Commit of every builder through the ProofBuilder interface (prover side, not under contract); only builder-internal state changes
+//@   requires context != nil && nonce != nil
+//@   ensures ok: err == nil ==> result0 != nil && val(result0) >= 0
+//@   modifies heap("Builder"), heap("ProofStructure"), heap("ProofCommit")
+
+//@ func KeyshareUserResponseRequest
+//@   property C14
+//@   requires len(builders) > 0 && context != nil && nonce != nil && randomizers != nil && randomizers["secretkey"] != nil
+//@   requires builders[0] is *CredentialBuilder ==> builders[0].(*CredentialBuilder) != nil && builders[0].(*CredentialBuilder).secret != nil
+//@   requires builders[0] is *DisclosureProofBuilder ==> builders[0].(*DisclosureProofBuilder) != nil && len(builders[0].(*DisclosureProofBuilder).attributes) > 0 && builders[0].(*DisclosureProofBuilder).attributes[0] != nil
+//@   ensures message: err == nil ==> result0.Context == context && result0.Nonce == nonce && result0.IsSignatureSession == signature && result0.UserChallengeInput == hashInput && result0.UserResponse != nil && result1 != nil
+//@   mustfail canary: err != nil
